@@ -1,6 +1,8 @@
 package main
 
 import (
+	"net/http/httptest"
+	"net/http"
 	"github.com/polydawn/rio/fs"
 	"hash/crc32"
 	"archive/zip"
@@ -481,6 +483,7 @@ func cliExec(c *Ctx, op string) {
 		s := unhx(a)
 		s = strings.ReplaceAll(s, "@W@", base)
 		s = strings.ReplaceAll(s, "@GOODID@", goodID)
+		s = strings.ReplaceAll(s, "@HTTP@", brokenHTTP())
 		args = append(args, s)
 	}
 	cmd := exec.Command(bin, args...)
@@ -511,6 +514,42 @@ func cliExec(c *Ctx, op string) {
 	c.H(fmt.Sprintf("exit:%d", code))
 	c.EmitR(op, "skip", "skip")
 	c.Distinct(op)
+}
+
+var brokenSrv *httptest.Server
+
+// brokenHTTP: a warehouse behind HTTP whose transfers break off — it announces the full Content-Length of a valid
+// zip / tar.gz ware, sends half of the body and drops the connection (path /half.zip, /half.tgz, /ca/...); /good.zip is whole.
+func brokenHTTP() string {
+	if brokenSrv != nil {
+		return brokenSrv.URL
+	}
+	var zb bytes.Buffer
+	zw := zip.NewWriter(&zb)
+	for i := 0; i < 40; i++ {
+		w, _ := zw.Create(fmt.Sprintf("f%02d", i))
+		w.Write(bytes.Repeat([]byte{byte(i), 7, 9}, 900))
+	}
+	zw.Close()
+	body := zb.Bytes()
+	brokenSrv = httptest.NewServer(http.HandlerFunc(func(w http.ResponseWriter, r *http.Request) {
+		if strings.HasSuffix(r.URL.Path, "/good.zip") {
+			w.Write(body)
+			return
+		}
+		w.Header().Set("Content-Length", fmt.Sprint(len(body)))
+		w.WriteHeader(200)
+		w.Write(body[:len(body)/2])
+		if f, ok := w.(http.Flusher); ok {
+			f.Flush()
+		}
+		if hj, ok := w.(http.Hijacker); ok {
+			if conn, _, err := hj.Hijack(); err == nil {
+				conn.Close()
+			}
+		}
+	}))
+	return brokenSrv.URL
 }
 
 func cliEngine(c *Ctx) {
@@ -565,7 +604,20 @@ func cliEngine(c *Ctx) {
 				[]string{"pack", "tar", "@W@/src", "--target=" + scheme + bad})
 		}
 	}
+	// transfers over HTTP that break off mid-body: every command, zip and tar, mono and content-addressed addresses
+	zid := "zip:3vuuiiEUjwwYaRFuLUXh9Sb3DkTFP4RCnCmRmdEDBT3GZ9mP5ShzmUgGm4hgYEUDjb"
+	tid := "tar:3vuuiiEUjwwYaRFuLUXh9Sb3DkTFP4RCnCmRmdEDBT3GZ9mP5ShzmUgGm4hgYEUDjb"
+	vecs = append(vecs,
+		[]string{"scan", "zip", "--source=@HTTP@/half.zip"}, []string{"--format=json", "scan", "zip", "--source=@HTTP@/half.zip"},
+		[]string{"scan", "tar", "--source=@HTTP@/half.tgz"}, []string{"scan", "zip", "--source=@HTTP@/good.zip"},
+		[]string{"unpack", zid, "@W@/dst", "--source=@HTTP@/half.zip", "--placer=direct"}, []string{"unpack", zid, "@W@/dst", "--source=ca+@HTTP@/ca"},
+		[]string{"unpack", tid, "@W@/dst", "--source=@HTTP@/half.tgz"}, []string{"unpack", tid, "@W@/dst", "--source=ca+@HTTP@/ca", "--placer=copy"},
+		[]string{"mirror", zid, "--target=ca+file://@W@/wh", "--source=@HTTP@/half.zip"}, []string{"mirror", tid, "--target=ca+file://@W@/wh", "--source=ca+@HTTP@/ca"})
 	for _, v := range vecs {
 		cliExec(c, mk(v...))
+	}
+	if brokenSrv != nil {
+		brokenSrv.Close()
+		brokenSrv = nil
 	}
 }
